@@ -14,7 +14,9 @@ def step (st : St) (op impl : List String) : St × List String :=
   match op with
   | "new" :: mode :: _seed :: _idx :: rest =>
     let kv := kvs rest
-    ({ active := true, mode := mode, hdr := kv, streams := parseStreams (get kv "streams") }, [])
+    -- `<mode>-native`: the same program run outside the bubble for the race detector
+    let mode := (mode.splitOn "-native").head!
+    ({ active := true, mode := mode, hdr := kv, streams := parseStreams (get kv "streams"), readers := max 1 (getN kv "readers") }, [])
   | ["connect", side] =>
     match impl with
     | r :: _ =>
@@ -44,21 +46,36 @@ def step (st : St) (op impl : List String) : St × List String :=
     let v := match st.aborter with
       | some x =>
         -- a stream the aborting side had already closed ends with EOF, as usual
-        if nat side == 1 - x && impl.head? != some "short" && impl.head? != some "deadline" && !st.abortLost && !st.shutdownOk.contains (nat side) && !st.closes.contains (x, nat si) && !((" ".intercalate impl).splitOn "verif-abort-reason").length ≥ 2 then
+        -- (a Close() racing with the Abort() on the same side may win: then no ABORT is sent; and an Abort() called on an
+        -- association whose own Shutdown() had already completed finds it closed: nothing is sent either)
+        if nat side == 1 - x && impl.head? != some "short" && impl.head? != some "deadline" && !st.abortLost && !st.closeCalled.contains x && !st.shutdownOk.contains (nat side) && !st.shutdownOk.contains x && !st.closes.contains (x, nat si) && !((" ".intercalate impl).splitOn "verif-abort-reason").length ≥ 2 then
           [s!"[C09] side {side} stream {si}: read failed with `{" ".intercalate impl}` after the peer's Abort; the error does not carry the abort cause"]
         else []
       | none => []
     (if impl == ["EOF"] then { st with eofs := (nat side, nat si) :: st.eofs } else st, v)
   | ["inject", kind, _side, _at] => ({ st with injected := kind }, [])
   | ["abortcall", side] => ({ st with aborter := some (nat side) }, [])
+  | ["idleread", side, si] =>
+    -- a reader that was idle (deadline armed, no Read blocked) during the teardown, came back after the deadline had
+    -- expired, set a new deadline and read: it must get the stream's TERMINAL error at once
+    match impl with
+    | r :: t :: _ =>
+      (st, (if r == "read-deadline-exceeded" then [s!"[C09] side {side} stream {si}: after the teardown a read keeps failing with the read-deadline error: the terminal (close / abort) error of the stream was replaced by a late deadline expiry"] else []) ++
+           (if nat t > 6000 then [s!"[C09] side {side} stream {si}: a read issued after the teardown returned only after {t} ms"] else []))
+    | _ => (st, [])
+  | ["idleunblocked"] => (st, [s!"[C09] a read issued after the teardown (new deadline set after an old one expired) never returned: the terminal error of the stream is gone"])
+  | ["readerspin", side, si] =>
+    (st, [s!"[C18,C09] side {side} stream {si}: more than 5000 consecutive read-deadline errors on a stream that will never get data or an error ({" ".intercalate impl})"])
+  | ["closecall", side] => ({ st with closeCalled := nat side :: st.closeCalled }, [])
+  | ["stormopen", dir, si] => (st, [s!"[C20] OpenStream({si}) on side {dir} returned a different object while the stream was still open"])
   | ["unblocked"] =>
     match impl with
-    | r :: t :: _ => (st, if r != "true" then [s!"[C09] API callers are still blocked {t} ms after {st.injected} was injected"] else [])
+    | r :: t :: _ => (st, if r != "true" then [s!"[{if st.mode == "storm" then "C20," else ""}C09] API callers are still blocked {t} ms after {st.injected} was injected"] else [])
     | _ => (st, [])
   | ["reclose", side] =>
     (st, if impl.any (fun e => e.startsWith "PANIC") then [s!"[C09] repeated Close on side {side}: {" ".intercalate impl}"] else [])
   | ["close", dir, si] =>
-    ({ st with closes := (nat dir, nat si) :: st.closes }, if impl != ["nil"] && st.mode == "reset" then [s!"[C14] Close of stream {si} on side {dir} returned {" ".intercalate impl}"] else [])
+    ({ st with closes := (nat dir, nat si) :: st.closes, closeAt := st.closeAt ++ [(nat dir, nat si, st.writes.size)] }, if impl != ["nil"] && st.mode == "reset" then [s!"[C14] Close of stream {si} on side {dir} returned {" ".intercalate impl}"] else [])
   | ["resetdone", c] =>
     match impl with
     | r :: t :: _ => (st, if r != "true" then [s!"[C14] cycle {c}: {t} ms after start the closed streams are still registered: the reset handshake never completed in both directions"] else [])
@@ -90,6 +107,7 @@ def step (st : St) (op impl : List String) : St × List String :=
     let f := nat from_
     -- the ABORT must beat the transport close (100 ms later) for the peer to see the cause: only required when it was delivered at once
     let st := if fate != "pass" && impl.contains "ABORT" then { st with abortLost := true } else st
+    let st := if impl.contains "SHUTDOWNCOMPLETE" then { st with sdDone := f :: st.sdDone } else st
     let st := noteTx { st with pkts := st.pkts.insert (f, nat idx) impl } f impl
     let v := (checkTx st f (nat len) impl).toList
     -- a SACK from this side acknowledges whatever it was waiting to acknowledge
@@ -104,13 +122,22 @@ def step (st : St) (op impl : List String) : St × List String :=
     let to_ := nat to
     match st.pkts[((1 - to_), nat idx)]? with
     | some summary =>
+      let st := if summary.contains "SHUTDOWNCOMPLETE" || summary.contains "SHUTDOWNACK" then { st with sdDone := to_ :: st.sdDone } else st
       if summary.any isDataTok && !st.ended && (st.awaitingAck[to_]!).isNone then
         ({ st with awaitingAck := st.awaitingAck.set! to_ (some (nat t)) }, [])
       else (st, [])
     | none => (st, [])
   | ["shutdown", side] =>
     match impl with
-    | r :: _ => if r == "nil" then ({ st with shutdownOk := nat side :: st.shutdownOk }, []) else (st, [])
+    | r :: _ =>
+      if r == "nil" then
+        -- C09 DEMANDS an error from a Shutdown that a teardown cut short (former finding D22 / K09-shutdown-nil, fixed in
+        -- /repo 52b27be): nil is legitimate only if this side was handed the peer's SHUTDOWN-ACK or SHUTDOWN-COMPLETE
+        -- (or already answered the SHUTDOWN-ACK with its SHUTDOWN-COMPLETE)
+        let cut := (st.mode == "teardown" || st.mode == "storm") && !st.sdDone.contains (nat side)
+        ({ st with shutdownOk := nat side :: st.shutdownOk },
+          if cut then [s!"[C09,C08] Shutdown on side {side} returned nil although the peer never acknowledged the SHUTDOWN (no SHUTDOWN-ACK / SHUTDOWN-COMPLETE reached this side; the association was torn down: {st.injected})"] else [])
+      else (st, [])
     | _ => (st, [])
   | ["wlate", dir, si, _len, hash] =>
     let v := match impl with
